@@ -478,7 +478,30 @@ def run(ctx):
             wf = {l for l in range(1, me_.argc + 1) if 'WeakArxmlFile' in (me_.local_ty(l) or '') and 'HashSet' not in (me_.local_ty(l) or '')}
             hs = {l for l in range(1, me_.argc + 1) if 'HashSet' in (me_.local_ty(l) or '')}
             sl = _sl9(me_, va[0], depth=14)
-            okv = not any(re.search(r'::min$|::min_by\w*$|::max$', c or '') for c in c_) and any(c.endswith('::version') for c in c_) and not (sl & hs)
+            # parameters the value depends on, through every argument of every call on the way
+            from flow import defs_of as _d9
+            reached, work, seen_ = set(), [va[0]], set()
+            while work:
+                o_ = work.pop()
+                if not is_local_op(o_) or o_['l'] in seen_:
+                    continue
+                seen_.add(o_['l'])
+                if 1 <= o_['l'] <= me_.argc:
+                    reached.add(o_['l'])
+                for q_, st_ in _d9(me_, o_['l']):
+                    if st_['k'] == 'call':
+                        work.extend(a_ for a_ in st_['args'] if is_local_op(a_))
+                    elif st_['k'] == 'assign':
+                        rv_ = st_['rv']
+                        if 'o' in rv_:
+                            work.append(rv_['o'])
+                        if 'pl' in rv_:
+                            work.append({'l': rv_['pl']['l'], 'p': []})
+                        work.extend(x_ for x_ in rv_.get('ops', []) if is_local_op(x_))
+                        for k_ in ('a', 'b'):
+                            if k_ in rv_ and is_local_op(rv_[k_]):
+                                work.append(rv_[k_])
+            okv = any(c.endswith('::version') for c in c_) and bool(reached & wf) and not (reached & hs)
     C.rule('C09-MUST-importversion', 'merge_element hands import_new_items the version of the incoming file (derived from the new-file parameter alone, not the minimum over all files)')
     C.check(okv, 'C09-MUST-importversion', 'merge_element|import-uses-the-version-of-the-new-file', 'the elements that only the new file contains are positioned by a version other than the version of that file (e.g. the minimum over all loaded files): '
             'an element kind that exists only in the newer file\'s version is rejected (InvalidFileMerge) when the older file was loaded first, and accepted in the opposite order', me_.where(imp_[0]) if imp_ else '',
